@@ -33,6 +33,17 @@ def psl_len(rules, labels):
     return None
 
 
+def wf_py(rules):
+    """Transcription of wf_rules (Proofs/SuffixTrieFacts.v): '*' / '!' only on the leftmost label, never '!*'."""
+    for r in rules:
+        labs = r.split(".")
+        if any(l == "*" or l.startswith("!") for l in labs[1:]):
+            return False
+        if labs[0] == "!*":
+            return False
+    return True
+
+
 def expected_from_len(labels, sl):
     if sl is None:
         return [None, None, None, False]
@@ -104,7 +115,10 @@ def run(res, tier, rng):
     nontriv = set()
     for i, rs in enumerate(sets):
         model = outs[2 * i]
-        wf, spec = outs[2 * i + 1]
+        if outs[2 * i + 1] is common.NOMODEL:
+            wf, spec = wf_py(rs), common.NOMODEL
+        else:
+            wf, spec = outs[2 * i + 1]
         t = impl_trie(rs)
         if len(rs) >= 2:
             nontriv.add(rs)
@@ -134,6 +148,10 @@ def run(res, tier, rng):
         if rng.random() > frac:
             continue
         labs = r.split(".")
+        # four bundled rules end with a dot ('xn--hebda8b.xn--4dbrk0ce.'): as rules they carry an empty label and match no
+        # hostname (a hostname's trailing dot is not a label); as hosts they are the trailing-dot form of the name
+        while labs and labs[-1] == "":
+            labs = labs[:-1]
         if labs[0].startswith("!"):
             base = [labs[0][1:]] + labs[1:]
             cand.append(base)                 # the exception itself
@@ -152,7 +170,7 @@ def run(res, tier, rng):
             if not labs[k:][0].startswith(("!", "*")):
                 cand.append(labs[k:])         # every proper suffix
     for _ in range(500 if tier == "quick" else 5000):
-        pool = rng.choice(rules).replace("*", "w").replace("!", "").split(".")
+        pool = rng.choice(rules).replace("*", "w").replace("!", "").rstrip(".").split(".")
         cand.append([rng.choice(["a", "www", "zz"] + pool) for _ in range(rng.randint(1, 3))] + pool[-rng.randint(1, len(pool)):])
     # corpus
     cand = [["svc", "firenet", "ch"], ["kawasaki", "jp"], ["city", "kawasaki", "jp"], ["ck"], ["www", "ck"], ["a", "www", "ck"]] + cand
@@ -200,7 +218,7 @@ def run(res, tier, rng):
             sl = psl_len(rules, labs)
             exp = expected_from_len(labs, sl)
             nontriv.add(u)
-            if sp[k] != sl:
+            if sp is not common.NOMODEL and sp[k] != sl:
                 res.violation("correspondence", "Coq psl spec (bundled) differs from the Python PSL transcription",
                               input=dict(host=labs), model=sp[k], impl=sl)
             if io[0] != exp:
